@@ -176,6 +176,75 @@ def run (j : Json) : R Json := do
   else
     runG (α := Float) (fun v => ratToFloat <$> asRat v) ofFloat floatToRat j
 
+/-! op "c14.session" (round 4): one dataset object, a sequence of steps
+     mode   "rat" | "float"
+     p      number of channels
+     rows   [[x..]..]           the measurements the object is built with
+     descs  [[n..]..]           one list of values (codes) per observation descriptor
+     steps  [ {"t":"sort","d":k} | {"t":"desc","d":k,"i":i,"v":n} | {"t":"val","i":i,"j":j,"x":num}
+            | {"t":"est","est":"measurements"|"unbalanced","method":…,"d":k,"dof":null|num} .. ]
+   answer: one result object (as for "c14.run") per "est" step, in order.  The content is
+   threaded through `Rsa.Noise.Step.apply` (the function `runSession` / `applySteps` are made
+   of); each estimate is computed from the content of that moment and from nothing else. -/
+
+section session
+variable {α : Type} [Add α] [Sub α] [Mul α] [Div α] [Zero α] [One α] [NatCast α] [Neg α]
+variable [LT α] [DecidableLT α] [LE α] [DecidableLE α] [Min α] [Max α] [Rsa.HasSqrt α]
+
+def parseStep (num : Json → R α) (j : Json) : R (Step α) := do
+  let t ← fld j "t" >>= asStr
+  match t with
+  | "sort" => do pure (.sort (← fld j "d" >>= asNat))
+  | "desc" => do
+    pure (.setDesc (← fld j "d" >>= asNat) (← fld j "i" >>= asNat) (← fld j "v" >>= asNat))
+  | "val" => do
+    pure (.setVal (← fld j "i" >>= asNat) (← fld j "j" >>= asNat) (← fld j "x" >>= num))
+  | "est" => do
+    let e ← fld j "est" >>= asStr
+    let est ← match e with
+      | "measurements" => pure Est.measurements
+      | "unbalanced" => pure Est.unbalanced
+      | _ => throw s!"unknown estimator {e}"
+    let m ← fld j "method" >>= asStr >>= parseMethod
+    let d ← fld j "d" >>= asNat
+    let dj := fldD j "dof" Json.null
+    let dof ← if dj.isNull then pure none else some <$> num dj
+    pure (.est est m d dof)
+  | _ => throw s!"unknown step {t}"
+
+/-- the estimate of one `est` step on the content `s` (through the evaluation plan) -/
+def estJson (out : α → Json) (toRat : α → Option Rat) (p : Nat) (s : List (SObs α))
+    (e : Est) (m : Method) (d : Nat) (dof : Option α) : Json :=
+  let inp : Input α := { rows := s.map (fun o => (List.range p).map o.2),
+                         labels := labels (view d s) }
+  let kind := match e with | .measurements => "measurements" | .unbalanced => "unbalanced"
+  resultJson p out toRat (covOne kind m inp dof p)
+
+def sessionG (num : Json → R α) (out : α → Json) (toRat : α → Option Rat) (exact : Bool)
+    (j : Json) : R Json := do
+  let p ← fld j "p" >>= asNat
+  let rows ← fld j "rows" >>= asList (asList num)
+  let descs ← fld j "descs" >>= asList (asList asNat)
+  let steps ← fld j "steps" >>= asList (parseStep num)
+  let s0 : List (SObs α) := (List.range rows.length).map (fun i =>
+    (descs.map (fun dl => dl[i]?.getD 0), rowOf ((rows[i]?).getD [])))
+  let (_, outs) ← steps.foldlM (fun (acc : List (SObs α) × List Json) st => do
+    match st with
+    | .est e m d dof =>
+      if exact ∧ m = .sdiag then throw "shrinkage_diag needs float mode (np.sqrt)"
+      pure (acc.1, estJson out toRat p acc.1 e m d dof :: acc.2)
+    | _ => pure (st.apply acc.1, acc.2)) (s0, [])
+  pure (Json.arr outs.reverse.toArray)
+
+end session
+
+def session (j : Json) : R Json := do
+  let mode ← fld j "mode" >>= asStr
+  if mode = "rat" then
+    sessionG (α := Rat) asRat ofRat (fun r => some r) true j
+  else
+    sessionG (α := Float) (fun v => ratToFloat <$> asRat v) ofFloat floatToRat false j
+
 /-- op "c14.dof": the three generated leaves on concrete sizes -/
 def dofs (j : Json) : R Json := do
   let n ← fld j "n" >>= asNat
@@ -189,6 +258,7 @@ def handle : Handler := fun op j =>
   match op with
   | "c14.run" => some (run j)
   | "c14.dof" => some (dofs j)
+  | "c14.session" => some (session j)
   | _ => none
 
 end Rsa.Drv.C14
